@@ -104,6 +104,13 @@ CHECKS.update({
    note="Trusted base: TLC 1.8; SHA-256 collision freeness; digests of existing files are not adversarial 32-byte values; the recorder that replaces hashlib.sha256 inside HashWords. JSON round trips are checked by generated values outside the TLA+ specification (encode/decode fidelity)."),
 })
 
+CHECKS.update({
+ "C20": dict(engine="c20", category="model_checking", design_ref="§8 C20",
+   technique="TLA+ specification of path meaning (lexical resolution on component sequences) and of the two translations by their meaning (spec/PathXlate.tla); TLC validates recorded calls of translate / translate_back / _keep_affixes / api.step / api.amend / api.get_info and the ROOT/HERE environment exported by the real executor",
+   text="For a domain of HERE values (root, nested, sibling of the root, parent of the root), working directories (relative with `..`, trailing separator, absolute inside/outside the root) and paths (`.`/`..` components, doubled separators, leading `./`, trailing `/`, absolute) the real functions are executed on a real directory tree with STEPUP_ROOT/HERE set (and with HERE unset from the step's directory), api.step/amend/get_info are executed with a capturing RPC client, and Layer B runs record what Executor._run_command exports for steps with working directories. TLC evaluates every recorded call against PathXlate.tla: translate must return exactly the normalised root-relative (or normalised absolute) path that designates the same file, translate_back a normalised path designating the same file from the working directory, a normalised root-relative path must come back unchanged, affixes must be preserved, ROOT and HERE must lead to the root and to the working directory. os.path.realpath on the real tree is compared as a cross-check.",
+   note="Trusted base: TLC 1.8 evaluating spec/PathXlate.tla; lexical resolution (no symbolic links); the capturing RPC client in checks/c20.py."),
+})
+
 PENDING = ["C01","C02","C04","C05","C06","C07","C11","C13","C14","C16","C17","C18","C20"]
 
 def main():
@@ -141,6 +148,7 @@ def main():
             {"name": "c13", "path": "checks/c13.py", "serves_properties": ["C13"], "kind_free_text": "HashEnc.tla injectivity model check + HashVec.tla stream vectors against the real StepHash + Refresh.tla trace validation"},
             {"name": "c17", "path": "checks/c17.py", "serves_properties": ["C17"], "kind_free_text": "NGlobSem.tla vectors replayed into NamedGlob on real trees + NGlobModel.tla exhaustive model check"},
             {"name": "c18", "path": "checks/c18.py", "serves_properties": ["C18"], "kind_free_text": "Prefix.tla vectors replayed into every directory-selection site of the real code"},
+            {"name": "c20", "path": "checks/c20.py", "serves_properties": ["C20"], "kind_free_text": "PathXlate.tla validation of recorded translation calls, api calls and executor environment"},
             {"name": "history", "path": "checks/history.py", "serves_properties": sorted(p for p, c in CHECKS.items() if c["engine"] == "history"),
              "kind_free_text": "Layer B histories; final states of related executions compared by TLC through spec/RelCheck.tla"},
         ],
